@@ -64,6 +64,11 @@ func (s *Service) AggregateAttestation(ctx context.Context,
 				return
 			}
 			aggregate := aggregateResponse.Data
+			if aggregate == nil {
+				log.Warn().Msg("Obtained nil aggregate attestation")
+
+				return
+			}
 			log.Trace().Str("provider", name).Msg("Obtained aggregate attestation")
 
 			ch <- aggregate
